@@ -190,6 +190,8 @@ def run_impl(case):
                 result = ["timeout", e.packet.arg1]
             except sc.FatalReturnCodeError as e:
                 result = ["fatal", int(e.return_code), None if e.packet is None else e.packet.arg1]
+            except Exception as e:     # noqa: the property allows only the two documented errors
+                result = ["error", type(e).__name__, repr(e)[:120]]
             log = net.log[start:]
             for k in range(sent0, net.n_sent):
                 send_owner[k] = bi
@@ -301,6 +303,10 @@ def eval_cases(ctx, cases):
     replies = ctx.lean(reqs)
     for (case, bi, d, what), r in zip(meta, replies):
         desc = case if not case.get("wrap") else dict(case, bursts=[{"n_commands": 65537}])
+        if what == "model" and d["result"][0] == "error":
+            ctx.violation("undocumented-exception",
+                          "burst %d ended with %s %s: a burst may only complete, raise the timeout error or the "
+                          "fatal-return-code error" % (bi, d["result"][1], d["result"][2]), desc)
         if what == "model":
             if r.get("events") != d["events"] or r.get("result") != d["result"]:
                 me = r.get("events", [])
@@ -329,6 +335,8 @@ def eval_cases(ctx, cases):
                         bi, n_iter, r["bound_strict"]), desc)
         else:
             for clause in r:
+                if clause == "did-not-terminate" and d["result"][0] == "error":
+                    continue        # reported as undocumented-exception
                 key = clause
                 if clause == "callback-with-foreign-reply":
                     w = is_wrap(case, d)
